@@ -20,6 +20,13 @@ class Native:
     """base of stub objects handed to the interpreted code; methods are called as obj.<name>(engine, *args)"""
 
 
+class StrOf(Native):
+    """str(<symbolic int>): the decimal rendering is not modelled, the value is kept"""
+
+    def __init__(self, term):
+        self.term = term
+
+
 class CrcVal:
     """CRC32 abstraction: the identity of the byte sequence hashed (collision-free)"""
 
@@ -791,6 +798,9 @@ def _isinstance(eng, o, t):
     ts = t if isinstance(t, tuple) else (t,)
     for x in ts:
         if isinstance(x, SClass):
+            if isinstance(o, Native) and x.real is not None and any(
+                    isinstance(t_, type) and issubclass(t_, x.real) for t_ in builtins.getattr(o, "isa", ())):
+                return True
             if isinstance(o, SObj):
                 c, stack = o.cls, [o.cls]
                 while stack:
@@ -1035,6 +1045,8 @@ def _str(eng, *a):
         return str(a[0])
     if isinstance(a[0], SStr):
         return a[0]
+    if is_sym(a[0]):
+        return StrOf(a[0])
     return "<str>"
 
 
